@@ -196,7 +196,13 @@ def stmt_int_addr(st):
 
 
 def symtab_ints(im):
-    return {k: (int(v, 16) if v else None) for k, v in im["symtab"]}
+    """symbol values as the printed symbol table shows them (`$hhhh NAME`); falls back to the value objects"""
+    out = {k: (int(v, 16) if v else None) for k, v in im["symtab"]}
+    for line in im.get("symlines") or []:
+        m = re.match(r"^\$([0-9A-Fa-f]*) *(\S+)$", line)
+        if m:
+            out[m.group(2)] = int(m.group(1), 16) if m.group(1) else None
+    return out
 
 
 def proj_layout(r):
@@ -239,7 +245,8 @@ def run_c02(run, thorough=False):
     rnd = random.Random(run.seed * 211 + 3)
     n = 250 if not thorough else 3000
     cases = layout_programs(rnd, n) + list(gen_asm.random_programs(rnd, n, valid_bias=0.97)) + \
-        [c for c in gen_asm.mutations(rnd, n)] + list(gen_asm.symbol_matrix(rnd))[:: (1 if thorough else 9)]
+        [c for c in gen_asm.mutations(rnd, n)] + list(gen_asm.symbol_matrix(rnd))[:: (1 if thorough else 9)] + \
+        list(gen_asm.equ_cases(rnd, 60 if not thorough else 1500))
     res = fam_asm.compare_progs(run, "asm.layout", cases, project=proj_layout)
     bad = {fam_asm_key(d["input"]) for d in run.disagreements}
     for c, im, rep in res:
@@ -282,6 +289,8 @@ def run_c02(run, thorough=False):
             if s["label"] and s["mn"] != "EQU" and syms.get(s["label"]) != stmt_int_addr(s):
                 run.violate("C02: a label's symbol-table value is not the listing address of its statement", inp, [s["label"], s["addr"]], syms.get(s["label"]))
                 break
+        # (4) every EQU symbol has its defined value
+        check_equ_symbols(run, "C02", c, im, same)
         # (5) an ORG that is not first: rejected, or the image still places bytes at address - origin
         emitted_before = False
         org_bad = False
@@ -393,6 +402,92 @@ def run_c03(run, thorough=False):
                         known_id=rid if (rid and same) else None)
 
 
+# ------------------------------------------------------------------ reference evaluator (README grammar, Python ints)
+
+TERM_RE = re.compile(r"^(?:\$[0-9A-Fa-f]{1,4}|\d+|[\w@]+)$")
+EXPR_RE = re.compile(r"^(\$?[\w@]+)([+\-*/])(\$?[\w@]+)$")
+
+
+class RefUndefined(Exception):
+    pass
+
+
+def ref_eval(text, equs, labels, depth=0):
+    """value of a literal, symbol or two-term expression as the property defines it: every EQU symbol replaced by its
+    defined value, every label by its address, + - * and truncating /.  Raises RefUndefined for an undefined symbol, a
+    definition cycle or a division by zero; returns None for text outside the grammar covered here."""
+    if depth > 40:
+        raise RefUndefined("cycle")
+
+    def term(t):
+        if re.fullmatch(r"\$[0-9A-Fa-f]{1,4}", t):
+            return int(t[1:], 16)
+        if re.fullmatch(r"\d+", t):
+            return int(t)
+        if re.fullmatch(r"[\w@]+", t):
+            if t in labels:
+                return labels[t]
+            if t in equs:
+                v = ref_eval(equs[t], equs, labels, depth + 1)
+                return v
+            raise RefUndefined(t)
+        return None
+    text = text.strip()
+    m = EXPR_RE.match(text)
+    if m:
+        a, b = term(m.group(1)), term(m.group(3))
+        if a is None or b is None:
+            return None
+        if m.group(2) == "/" and b == 0:
+            raise RefUndefined("division by zero")
+        return expr_value(a, b, m.group(2)) if m.group(2) != "/" else int(abs(a) // abs(b)) * (1 if (a >= 0) == (b >= 0) else -1)
+    lv = lit_value(text)
+    if lv is not None and not re.fullmatch(r"[\w@]+", text) or re.fullmatch(r"-?\d+", text):
+        return lv
+    if re.fullmatch(r"[\w@]+", text):
+        return term(text)
+    return None
+
+
+def prog_symbols(lines, im=None):
+    """EQU definitions (label -> operand text) and, for an accepted program, label -> listing address"""
+    equs = {}
+    for l in lines:
+        f = l.split()
+        if len(f) >= 3 and not l[0].isspace() and f[1].upper() == "EQU":
+            equs[f[0]] = f[2]
+    labels = {}
+    if im is not None and im.get("k") == "ok":
+        for st in im["stmts"]:
+            if st["label"] and st["mn"] != "EQU" and st["addr"]:
+                labels[st["label"]] = int(st["addr"], 16)
+    return equs, labels
+
+
+def check_equ_symbols(run, prop, c, im, same=True):
+    """C02 / C04: every EQU symbol of an accepted program has its defined value (mod 65536) in the symbol table"""
+    equs, labels = prog_symbols(c["lines"], im)
+    if not equs:
+        return
+    syms = symtab_ints(im)
+    for name, text in equs.items():
+        try:
+            v = ref_eval(text, equs, labels)
+        except RefUndefined as e:
+            run.violate("%s: an EQU that cannot be evaluated (%s) is accepted" % (prop, e), {"lines": c["lines"], "symbol": name}, "diag", "ok")
+            return
+        if v is None:
+            continue
+        run.dist[prop.lower() + ".equ-symbol-checked"] += 1
+        if not (-32768 <= v <= 65535):
+            run.violate("%s: an EQU whose value lies outside 16 bits is accepted" % prop, {"lines": c["lines"], "symbol": name, "value": v}, "diag", syms.get(name))
+            return
+        if syms.get(name) is None or (syms[name] - v) % 65536 != 0 or (v >= 0 and syms[name] != v):
+            run.violate("%s: an EQU symbol does not have its defined value in the symbol table" % prop, {"lines": c["lines"], "symbol": name},
+                        {"value": v}, {"symtab": syms.get(name)})
+            return
+
+
 # ------------------------------------------------------------------ C04
 
 def expr_value(a, b, op):
@@ -408,10 +503,78 @@ def expr_value(a, b, op):
 
 
 def region_c04(meta, val):
-    pos = meta["pos"]
-    if pos == "equ":
-        return "C4"                      # EQU of an expression is not evaluated
-    return None
+    return None                          # (was finding C4: EQU of an expression; repaired in 0f280be)
+
+
+def run_equ(run, cases, prop):
+    """EQUs defined by expressions (chains, cycles, labels): the symbol table and every use carry the arithmetic value"""
+    res = fam_asm.compare_progs(run, "asm.equ", cases)
+    bad = {fam_asm_key(d["input"]) for d in run.disagreements}
+    todo = []
+    for c, im, rep in res:
+        m = c["meta"]
+        same = fam_asm_key({"lines": c["lines"], "files": None}) not in bad
+        inp = {"lines": c["lines"]}
+        run.case("asm.equ", {"src": [l.strip() for l in c["lines"]]}, [im["k"], c["tag"]], nontrivial=True, sample_every=37)
+        run.dist[prop.lower() + "." + c["tag"] + "." + im["k"]] += 1
+        if im["k"] not in ("ok", "diag"):
+            run.violate("C13/%s: a program with EQU expressions ends in an internal error" % prop, inp, "ok|diag", [im["k"], im.get("exc")])
+            continue
+        if m.get("reject"):
+            if im["k"] != "diag":
+                run.violate("%s: an EQU that cannot be evaluated (cycle, undefined symbol, division by zero, out of range) is accepted" % prop, inp, "diag", im["k"])
+            continue
+        equs, labels = prog_symbols(c["lines"], im)
+        if im["k"] == "diag":
+            # rejected: legitimate only if some EQU or use cannot be evaluated / represented
+            try:
+                vals = [ref_eval(t, equs, {}) for t in list(equs.values()) + [u[2] for u in m["uses"]]]
+            except RefUndefined:
+                continue
+            if c["tag"] == "equ-chain" and all(v is not None and 0 <= v <= 65535 for v in vals) and \
+                    all(not (pos == "fcb" and v > 255) for (_, pos, _), v in zip(m["uses"], vals[len(equs):])):
+                run.violate("%s: a program whose EQU expressions all have representable values is rejected" % prop, inp, {"values": vals}, "diag")
+            continue
+        check_equ_symbols(run, prop, c, im, same)
+        for idx, pos, text in m["uses"]:
+            try:
+                v = ref_eval(text, equs, labels)
+            except RefUndefined as e:
+                run.violate("%s: a use of an EQU that cannot be evaluated (%s) is accepted" % (prop, e), inp, "diag", "ok")
+                continue
+            if v is None:
+                continue
+            todo.append((c, im, idx, pos, text, v))
+    decs = oracle_asm.decode_all([im["stmts"][idx]["bytes"] or "" for c, im, idx, pos, text, v in todo])
+    for (c, im, idx, pos, text, v), d in zip(todo, decs):
+        st = im["stmts"][idx]
+        v16 = v % 65536
+        inp = {"lines": c["lines"], "statement": idx, "text": text}
+        if st["bytes"] is None:
+            continue
+        if pos == "fdb":
+            got = int(st["bytes"], 16) if st["bytes"] else None
+            okay = got == v16 and len(st["bytes"]) == 4
+        else:
+            okay = bool(d.get("ok")) and d["n"] == len(st["bytes"]) // 2
+            got = None
+            if okay:
+                if pos == "imm":
+                    got = d.get("v")
+                    wide = st["mn"] in IS16
+                    okay = d["mode"] == "imm" and (got == v16 if wide else (got == v % 256 and -128 <= v <= 255))
+                elif pos == "mem":
+                    got = d.get("a")
+                    okay = d["mode"] in ("dir", "ext") and got == v16
+                elif pos == "extind":
+                    got = d.get("addr")
+                    okay = d.get("k") == "extind" and got == v16
+                elif pos == "idx":
+                    got = d.get("off")
+                    okay = d.get("k") == "off" and (got - v16) % 65536 == 0
+        if not okay:
+            run.violate("%s: the value encoded for an operand that uses an EQU defined by an expression is not its arithmetic value" % prop, inp,
+                        {"value": v, "mod65536": v16}, {"bytes": st["bytes"], "decoded": got})
 
 
 def run_c04(run, thorough=False):
@@ -463,6 +626,8 @@ def run_c04(run, thorough=False):
                 body = [" %s %s" % (mn, t), "L1 NOP", " RMB 7", "L2 NOP"] if late else ["L1 NOP", " RMB 7", "L2 NOP", " %s %s" % (mn, t)]
                 cases.append({"lines": gen_asm.L(*([" ORG " + org] + body)), "tag": "label-label",
                               "meta": {"mn": mn, "pos": pos, "stmt": 1 if late else 4, "label2": (t.lstrip("#")[:2], opc, t.lstrip("#")[3:])}})
+    equ_cases = list(gen_asm.equ_cases(rnd, 120 if not thorough else 2500))
+    run_equ(run, equ_cases, "C04")
     res = fam_asm.compare_progs(run, "asm.expr", cases)
     bad = {fam_asm_key(d["input"]) for d in run.disagreements}
     hexes = []
@@ -561,7 +726,7 @@ def lit_value(e):
 
 def run_c05(run, thorough=False):
     rnd = random.Random(run.seed * 433 + 19)
-    cases = list(gen_asm.data_cases(rnd, 300 if not thorough else 3000))
+    cases = list(gen_asm.data_cases(rnd, 300 if not thorough else 3000)) + list(gen_asm.fcc_cases(rnd, 200 if not thorough else 4000))
     res = fam_asm.compare_progs(run, "asm.data", cases)
     bad = {fam_asm_key(d["input"]) for d in run.disagreements}
     for c, im, rep in res:
@@ -575,6 +740,8 @@ def run_c05(run, thorough=False):
             rid = None
             run.violate("C13/C05: a data directive ends in an internal error", inp, "ok|diag", [im["k"], im.get("exc")], known_id=rid if (rid and same) else None)
             continue
+        if mn == "FCCODD":
+            continue                          # correspondence and outcome kind only
         if mn == "DATASYM":
             exp = m["expect"]
             if exp is None:
@@ -631,7 +798,7 @@ def run_c05(run, thorough=False):
             line = c["lines"][m["stmt"]]
             tail = line.rstrip("\n").split(m["d"] + m["s"] + m["d"], 1)[-1] if (m["d"] + m["s"] + m["d"]) in line else "?"
             # D3: the operand is rebuilt from two regex groups; exact only when the whole string lies in the operand character class
-            rid = "D3" if (any(ch not in opchars for ch in m["s"] + m["d"]) or tail.strip() != "" or m["s"] == "") else None
+            rid = None                    # (was finding D3: the string rebuilt from two regex groups; repaired in d74c37d)
             if got != want:
                 run.violate("C05: FCC does not emit exactly the characters between its delimiters", inp, want[:120], (got or im["k"])[:120],
                             known_id=rid if (rid and same) else None)
@@ -651,7 +818,8 @@ def run_c13(run, thorough=False):
     cases = list(gen_asm.mutations(rnd, n)) + list(gen_asm.random_lines(rnd, n // 2)) + list(gen_asm.random_programs(rnd, n // 2, valid_bias=0.7)) + \
         list(gen_asm.pcr_interacting(rnd, 60 if not thorough else 1200)) + list(gen_asm.include_cases(rnd, 10 if not thorough else 100)) + \
         [c for c in gen_asm.branch_sweep(rnd, thorough) if c["tag"].startswith("pcr")][:: (1 if thorough else 3)] + \
-        list(gen_asm.data_cases(rnd, 80)) + list(gen_asm.stress_cases(rnd))
+        list(gen_asm.data_cases(rnd, 80)) + list(gen_asm.stress_cases(rnd)) + list(gen_asm.equ_cases(rnd, 60 if not thorough else 1000)) + \
+        list(gen_asm.fcc_cases(rnd, 60 if not thorough else 1000))
     # structured stress: one or more label,PCR operands at every distance around the 8/16-bit boundary
     for n_ in range(118, 132):
         for mn in ("LDA", "LDY"):
@@ -846,7 +1014,7 @@ def run_c18(run, thorough=False):
         D = c["meta"].get("D", D)
         shifted = [l.replace("ORG $%04X" % org, "ORG $%04X" % (org + D)) for l in lines]
         names = c["meta"]["labels"]
-        new = ["ZED", "K2", "Lnew", "M1q", "W"] if rnd.random() < 0.85 else ["ZED", "K2", "Lnew", "M_1", "@W"]
+        new = ["ZED", "K2", "Lnew", "M1q", "W"] if rnd.random() < 0.5 else rnd.choice([["ZED", "K2", "Lnew", "M_1", "@W"], ["Z_D", "_K2", "L@new", "M_1_", "W@_1"]])
         rnd.shuffle(new)
         mapping = dict(zip(names, new))
         suffix = gen_asm.L(*rnd.choice([[" NOP", "EXTRA LDA #1", " BRA EXTRA"], ["TAIL FCB 1,2", " FDB TAIL"], [" LEAX LA,PCR", "NEW2 RTS"], [" RMB 300", " LDA LA"]]))
@@ -874,7 +1042,7 @@ def run_c18(run, thorough=False):
         # R2 rename: bytes and addresses identical, symbols renamed
         if not (rr["k"] == "ok" and [(s["addr"], s["bytes"]) for s in rr["stmts"]] == [(s["addr"], s["bytes"]) for s in rb["stmts"]] and
                 [[mp.get(k, k), v] for k, v in rb["symtab"]] == rr["symtab"]):
-            rid = "S1" if any(("_" in v or "@" in v) for v in mp.values()) else None     # '_' / '@' in a symbol: definable, not always referable
+            rid = None          # (was finding S1: '_' / '@' in a symbol; repaired in 4e31349)
             same = fam_asm_key({"lines": rn, "files": None}) not in bad
             run.violate("C18: consistently renaming labels changes bytes, addresses or symbol values", dict(inp, mapping=mp), "identical output", rr["k"],
                         known_id=rid if (rid and same) else None)
